@@ -5,7 +5,8 @@ from .lib import *
 RULE = ("decision grid enumerated completely: 9 request methods x status codes x response versions {1.0,1.1} x Content-Length in "
         "{absent,'0','7','18446744073709551615','18446744073709551616','abc','+5','5 5',non-text,'007'} x Transfer-Encoding in "
         "{absent,chunked,Chunked,'gzip, chunked','chunked, gzip','gzip',identity,non-text} (x Location field present/absent for 3xx); quick: boundary statuses "
-        "{101,199,200,204,205,299,300,301,304,305,307,399,400,999}; thorough: additionally every status 101..999 with 5x4 header "
+        "{101,199,200,204,205,299,300,301,304,305,307,399,400,999}; the same decision preceded by an interim 1xx response (with or without its own "
+        "framing fields) returned on the same flow; thorough: additionally every status 101..999 with 5x4 header "
         "classes. Each cell: head -> try_response -> proceed -> body mode. Status 100 is C11's. oracle = transcription of the "
         "statement's rule list. non-trivial = every cell (each is a distinct decision); distinct = distinct cells")
 TRUSTED_BASE = COMMON_TRUSTED_BASE
@@ -48,7 +49,11 @@ def expected(method, status, v11, cl, te):
     return (mode, succ)
 
 
-def build(method, status, version, cl, te, loc=True):
+INTERIMS = [b"HTTP/1.1 103 Early Hints\r\nLink: </s.css>\r\n\r\n", b"HTTP/1.1 102 Processing\r\n\r\n",
+            b"HTTP/1.1 199 Misc\r\nContent-Length: 9\r\n\r\n", b"HTTP/1.1 101 Switching\r\nTransfer-Encoding: chunked\r\n\r\n"]
+
+
+def build(method, status, version, cl, te, loc=True, interim=None):
     fields = []
     if cl is not None:
         fields.append((b"Content-Length", cl))
@@ -61,9 +66,13 @@ def build(method, status, version, cl, te, loc=True):
         ops = [op_new(method, "1.1", "http", "a.test", "/", [("content-length", "0")]), "proceed", "write_head #4096", "proceed", "write_body x #0", "proceed"]
     else:
         ops = [op_new(method, "1.1", "http", "a.test", "/", []), "proceed", "write_head #4096", "proceed"]
+    if interim is not None:
+        # an interim response (1xx other than 100) is returned first; the caller keeps reading on the same flow. The framing of the
+        # final response is decided by the final response alone.
+        ops += ["raw_try_response %s" % hx(interim)]
     ops += ["raw_try_response %s" % hx(head), "q_can_proceed", "proceed", "q_body_mode", "q_can_proceed"]
     return {"ops": ops, "meta": {"cell": [method, status, version, cl.hex() if cl is not None else None, te.hex() if te is not None else None],
-                                 "location": bool(loc and 300 <= status <= 399)}}
+                                 "location": bool(loc and 300 <= status <= 399), "interim": interim is not None}}
 
 
 def generate(rng, tier, mult):
@@ -73,6 +82,11 @@ def generate(rng, tier, mult):
         if 300 <= s <= 399:
             # the successor must not depend on whether the 3xx response carries a Location field
             out.append(build(m, s, v, cl, te, loc=False))
+    # the same decision after an interim 1xx response on the same flow
+    k = 0
+    for m, s, v, cl, te in itertools.product(METHODS, [200, 204, 301, 304, 404], ["1.0", "1.1"], CLS_SMALL, TES_SMALL):
+        out.append(build(m, s, v, cl, te, interim=INTERIMS[k % len(INTERIMS)]))
+        k += 1
     if tier == "thorough":
         rest = [s for s in range(101, 1000) if s not in BOUNDARY]
         for m, s, v, cl, te in itertools.product(METHODS, rest, ["1.0", "1.1"], CLS_SMALL, TES_SMALL):
@@ -96,9 +110,12 @@ def oracle(script, obs):
     ops = script["ops"]
     if any(o == "panic" for o in obs):
         return ["panic in cell %s" % script["meta"]["cell"]]
-    i = next(k for k, op in enumerate(ops) if op.startswith("raw_try_response"))
+    idx = [k for k, op in enumerate(ops) if op.startswith("raw_try_response")]
+    i = idx[-1]
+    if len(idx) > 1 and not obs[idx[0]].startswith("some "):
+        return ["interim response not returned: %s" % obs[idx[0]][:60]]
     o = obs[i]
-    cell = "%s %d HTTP/%s cl=%r te=%r%s" % (m, s, v, cl, te, "" if script["meta"].get("location", True) or not 300 <= s <= 399 else " (no Location field)")
+    cell = "%s %d HTTP/%s cl=%r te=%r%s" % (m, s, v, cl, te, ("" if script["meta"].get("location", True) or not 300 <= s <= 399 else " (no Location field)") + (" after an interim 1xx on the same flow" if script["meta"].get("interim") else ""))
     if exp[0] == "dontcare":
         return []
     if exp[0] == "err":
